@@ -525,6 +525,10 @@ impl Scenario for Tuned {
         // whichever side asked for the lower value
         v.push(json!({"client": [0, 0, 60], "server": [3, 4096, 1], "silent": true}));
         v.push(json!({"client": [2, 8192, 2], "server": [0, 0, 60], "silent": true}));
+        // the server takes one and a half announced intervals between TuneOk and OpenOk: the
+        // interval is in force from TuneOk on, and still is once the connection is open
+        v.push(json!({"client": [0, 0, 60], "server": [3, 4096, 1], "slow_open": true}));
+        v.push(json!({"client": [2, 8192, 2], "server": [0, 0, 60], "slow_open": true}));
         v
     }
     fn bound(&self, tier: &str, _p: &Value) -> usize {
@@ -542,8 +546,10 @@ impl Scenario for Tuned {
         let s: Vec<u64> = p["server"].as_array().unwrap().iter().map(|x| x.as_u64().unwrap()).collect();
         let mut hs = Handshake::default();
         hs.tune = (s[0] as u16, s[1] as u32, s[2] as u16);
-        let mut broker = StdBroker::new(hs);
         let hb = (c[2] as u16).min(s[2] as u16) as u64;
+        let delay = if p["slow_open"] == true { hb * 1500 } else { 0 }; // ms
+        hs.open_ok_delay_ns = delay * MS;
+        let mut broker = StdBroker::new(hs);
         // the server keeps talking so that it is never declared dead
         let hbf = frame_bytes(&amq_protocol::frame::AMQPFrame::Heartbeat(0));
         if hb > 0 && p["silent"] != true {
@@ -554,12 +560,12 @@ impl Scenario for Tuned {
             let mut n = 0usize;
             let mut i = 1u64;
             while i * hb * 450 < end - 50 {
-                broker.timed.push_back((i * hb * 450 * MS, vec![hbf[n % 8]]));
+                broker.timed.push_back(((delay + i * hb * 450) * MS, vec![hbf[n % 8]]));
                 n += 1;
                 i += 1;
             }
             if n % 8 != 0 {
-                broker.timed.push_back((end * MS, (n % 8..8).map(|k| hbf[k]).collect()));
+                broker.timed.push_back(((delay + end) * MS, (n % 8..8).map(|k| hbf[k]).collect()));
             }
         }
         let mut cfg = EnvConfig::default();
@@ -659,6 +665,8 @@ impl Scenario for Tuned {
         }
         // heartbeat timing by the announced interval
         let t0 = main.iter().find_map(|l| l.strip_prefix("idle from ").and_then(|x| x.parse::<u64>().ok())).unwrap_or(0) * MS;
+        // (slow OpenOk: the interval is in force from the TuneOk, written at time 0, onwards)
+        let t0 = if p["slow_open"] == true { 0 } else { t0 };
         let t1 = main.iter().find_map(|l| l.strip_prefix("idle until ").and_then(|x| x.parse::<u64>().ok())).unwrap_or(0) * MS;
         let n_hb = envs.iter().filter(|e| e.ty == 8).count();
         if hb == 0 {
